@@ -1428,6 +1428,8 @@ VSdelete(int32 f, /* IN: file handle */
         HGOTO_ERROR(DFE_ARGS, FAIL);
 
     /* check for write-permission to the file before anything is taken apart */
+    if (HAatom_group(f) != FIDGROUP)
+        HGOTO_ERROR(DFE_ARGS, FAIL);
     file_rec = HAatom_object(f);
     if (BADFREC(file_rec))
         HGOTO_ERROR(DFE_ARGS, FAIL);
